@@ -97,7 +97,12 @@ theorem no_default_chain (h : Hop) (hs : List Hop) (i : Nat) :
   cases h <;> rfl
 
 /-- An empty header value is never accepted by HTTP extraction. -/
-theorem http_rejects_empty : extractHTTP [] = .error .noOrgID := rfl
+theorem http_rejects_empty (recv : Ctx) : extractHTTP recv [] = .error .noOrgID := rfl
+
+/-- whatever identifier the receiving side's context already holds never replaces (or stands in
+for) the transported one -/
+theorem extraction_ignores_receiver (recv recv' : Ctx) (h : Bytes) (v : List Bytes) :
+    extractHTTP recv h = extractHTTP recv' h ∧ extractGRPC recv v = extractGRPC recv' v := ⟨rfl, rfl⟩
 
 /-! ### Non-vacuity: the hypotheses above are met by concrete, non-trivial inputs. -/
 
@@ -106,7 +111,7 @@ example : tenantID [116, 58, 97, 124, 116] = .ok [116] := by decide
 example : tenantIDs [98, 124, 97, 58, 107, 124, 98] = .ok [[97], [98]] := by decide
 -- "t:a=b:c=d"
 example : parseWithMetadata [116, 58, 97, 61, 98, 58, 99, 61, 100] = .ok ([116], [58, 97, 61, 98, 58, 99, 61, 100]) := by decide
-example : chain (some [97]) [.http [], .grpc none, .http [97], .grpc (some [[97]])] 0 = .ok (some [97]) := by decide
-example : chain (some [97]) [.http [98]] 0 = .error (.differentOrg, 0) := by decide
+example : chain (some [97]) [.http [] none, .grpc none (some [120]), .http [97] (some [120]), .grpc (some [[97]]) none] 0 = .ok (some [97]) := by decide
+example : chain (some [97]) [.http [98] none] 0 = .error (.differentOrg, 0) := by decide
 
 end PC20
